@@ -7,7 +7,7 @@
                                                          fractional digits given as its scaled integer (0.29 -> 29000)
    A value is an exact rational <<num, den>> of n-byte words, den > 0.
    case = EbpfRun's case record plus  op (add sub mul truediv floordiv mod, or cmp_gt .. cmp_eq), l, r (operands),
-          dstfixed (is the destination fixed-point?), dst [fd, off, size, be] (8 bytes unless size says otherwise;
+          dstfixed (is the destination fixed-point?), dst [fd, off, size, be] or [fd, off, size, key] for a hash-map variable (8 bytes unless size says otherwise;
           be: declared big-endian), n, marks (for comparisons).
 
    What the property demands (and nothing more):
@@ -136,7 +136,7 @@ FixedVerdictOf(k, f) ==
     ELSE IF IsCmp(k) THEN
         (IF MarksOf(k, f) = ExpectedMarks(k) THEN <<"ok", <<>>, MarksOf(k, f), ExpectedMarks(k)>>
          ELSE <<"wrong", <<>>, MarksOf(k, f), ExpectedMarks(k)>>)
-    ELSE LET got == InOrder(k.dst, LoadBytes(f.m, Rg("arr", k.dst.fd, <<>>), k.dst.off, DstSize(k))) IN
+    ELSE LET got == Observed(k, f) IN        \* Codegen: an array-map variable in its byte order, or a hash-map cell
          IF got \in ExpectedRaw(k) THEN <<"ok", <<>>, got, ExpectedRaw(k)>>
          ELSE <<"wrong", <<>>, got, ExpectedRaw(k)>>
 FixedReport(k, v) == <<"VERDICT", cid>> \o v \o <<IF v[1] \in {"wrong", "fault"} THEN DivOnNegative(k) ELSE FALSE>>
